@@ -803,7 +803,7 @@ impl<'a> Gen<'a> {
             .copied()
             .filter(|i| {
                 let f = &self.prog.funcs[*i];
-                &f.ret == ty && !f.has_out && !f.writes_statics && f.method_of.is_none()
+                &f.ret == ty && !f.has_out && !f.writes_statics && f.method_of.is_none() && !f.params.iter().any(|p| matches!(p.ty, Ty::Array(..)))
             })
             .collect();
         if cands.is_empty() {
@@ -1476,6 +1476,20 @@ impl<'a> Gen<'a> {
         let mut io_locals: Vec<(Ty, Name)> = Vec::new();
         let exact = f.template.is_some() || self.prog.funcs.iter().filter(|g| g.name == f.name).count() > 1;
         for p in &f.params {
+            if let Ty::Array(elem, len) = &p.ty {
+                // an array argument is a variable: an existing one of that type or a fresh one
+                let existing: Vec<VarInfo> = self.vars_of(&p.ty, true).into_iter().filter(|v| !v.is_static).collect();
+                if !existing.is_empty() && self.pick(2) == 0 {
+                    let v = existing[self.pick(existing.len())].clone();
+                    args.push(E::Var(v.name, v.ty));
+                } else {
+                    let inits: Vec<E> = (0..*len).map(|_| self.expr(elem, 2)).collect();
+                    let n = self.declare(p.ty.clone(), false, false);
+                    pre.push(St::DeclArr(p.ty.clone(), n, inits));
+                    args.push(E::Var(n, p.ty.clone()));
+                }
+                continue;
+            }
             if p.io == 0 {
                 let mut a = if exact { self.expr(&p.ty, 3) } else { self.conv_expr(&p.ty, 3) };
                 if Self::is_lit(&a) {
@@ -1664,6 +1678,12 @@ impl<'a> Gen<'a> {
         for k in 0..np {
             let ty = self.pick_value_ty();
             let ty = if matches!(ty, Ty::Array(..)) { Ty::S(Sc::Int) } else { ty };
+            // arrays as parameters: passed by value, or written through as out / inout
+            let ty = if self.prof.arrays && method_of.is_none() && name_share.is_none() && self.pick(7) == 0 {
+                Ty::Array(Box::new(Ty::S([Sc::Int, Sc::Float, Sc::UInt][self.pick(3)])), 2 + self.pick(3) as u32)
+            } else {
+                ty
+            };
             let io = if self.prof.out_params && name_share.is_none() && self.pick(5) == 0 { 1 + self.pick(2) as u8 } else { 0 };
             has_out |= io != 0;
             let pname = self.fresh("p");
@@ -1683,6 +1703,14 @@ impl<'a> Gen<'a> {
         let mut body = Vec::new();
         // out parameters are written first so that they are always assigned
         for p in params.clone().iter().filter(|p| p.io == 1) {
+            if let Ty::Array(elem, len) = &p.ty {
+                for k in 0..*len {
+                    let v = self.expr(elem, 2);
+                    let target = E::Index(Box::new(E::Var(p.name, p.ty.clone())), Box::new(E::Lit(format!("{}", k), Ty::S(Sc::Int))));
+                    body.push(St::Expr(E::Assign("=", Box::new(target), Box::new(v))));
+                }
+                continue;
+            }
             let v = self.expr(&p.ty, 2);
             body.push(St::Expr(E::Assign("=", Box::new(E::Var(p.name, p.ty.clone())), Box::new(v))));
         }
@@ -2565,7 +2593,7 @@ impl Renderer<'_> {
                     out.push_str(", ");
                 }
                 out.push_str(["", "out ", "inout "][p.io as usize]);
-                let _ = write!(out, "{} {}", tyname(&p.ty), self.n(p.name));
+                let _ = write!(out, "{} {}{}", tyname(&p.ty), self.n(p.name), self.arr_suffix(&p.ty));
                 if let (Some(d), true) = (&p.default, with_defaults) {
                     out.push_str(" = ");
                     self.expr(d, out);
